@@ -379,6 +379,10 @@ def job_row_order(job, n):
     job.prove(f"row-order[{n}]/reach", dom, expect="sat")
 
 
+# concrete replays run on the real code when the changed code uses something the engine does not model (harness.finish)
+FALLBACK = [(replay_boundary, {}), (replay_boundary, {"cls": "IdealReservoir"}), (replay_mesh, {}), (replay_mesh, {"cls": "IdealReservoir"}), (replay_recovery, {}), (replay_rows, {"nx": 4, "nt": 3}), (replay_rows, {"cls": "IdealReservoir", "nx": 4, "nt": 3})]
+
+
 def jobs(tier):
     out = [("row-order-3", lambda j: job_row_order(j, 3))]
     for nx in ((5, 6) if tier == "quick" else (5, 6, 7, 8)):
